@@ -142,8 +142,9 @@ export function projectionFault(data, input, path = "$", depth = 0) {
   if (input === null || typeof input !== "object") return `${path}: output has a container where the input has ${fmt(input)}`;
   if (Array.isArray(data)) {
     if (!Array.isArray(input)) return `${path}: array in output, ${kind(input)} in input`;
-    // a too-short tuple accepted by convention is rebuilt with its missing slots as undefined: not judged
-    if (data.length > input.length && data.slice(input.length).some((x) => x !== undefined)) return `${path}: output array longer than input`;
+    // (a too-short tuple is accepted when its missing slots accept undefined; the data must not grow
+    // elements for them: they are not parts of the input)
+    if (data.length > input.length) return `${path}: output array longer than input`;
     for (let i = 0; i < data.length; i++) {
       const f = projectionFault(data[i], input[i], `${path}[${i}]`, depth + 1);
       if (f) return f;
